@@ -20,10 +20,19 @@ type guardSpec struct {
 	params  []string
 	guards  []string // keys
 	exits   []string
+	effects []string // "event when atoms"
+	orders  [][2]string
+	musts   []mustRule
+	noev    []string
 	refs    map[string]string
 	open    bool // open world: extra guards in the function are not reported
 	avoidOK map[string]bool
 	line    int
+}
+
+type mustRule struct {
+	sel    string
+	unless []string
 }
 
 func parseGuardsFile(path string) ([]*guardSpec, error) {
@@ -76,6 +85,27 @@ func parseGuardsFile(path string) ([]*guardSpec, error) {
 				return nil, fmt.Errorf("%s:%d: exit outside func", path, i+1)
 			}
 			cur.exits = append(cur.exits, strings.TrimSpace(t[5:]))
+		case strings.HasPrefix(t, "effect "):
+			cur.effects = append(cur.effects, strings.TrimSpace(t[7:]))
+		case strings.HasPrefix(t, "order "):
+			ab := strings.SplitN(t[6:], " < ", 2)
+			if len(ab) != 2 {
+				return nil, fmt.Errorf("%s:%d: order needs A < B", path, i+1)
+			}
+			cur.orders = append(cur.orders, [2]string{strings.TrimSpace(ab[0]), strings.TrimSpace(ab[1])})
+		case strings.HasPrefix(t, "mustpass "):
+			m := mustRule{}
+			rest := t[9:]
+			if j := strings.Index(rest, " unless "); j >= 0 {
+				for _, u := range strings.Split(rest[j+8:], " ; ") {
+					m.unless = append(m.unless, strings.TrimSpace(u))
+				}
+				rest = rest[:j]
+			}
+			m.sel = strings.TrimSpace(rest)
+			cur.musts = append(cur.musts, m)
+		case strings.HasPrefix(t, "noevent "):
+			cur.noev = append(cur.noev, strings.TrimSpace(t[8:]))
 		case strings.HasPrefix(t, "avoid-ok "):
 			cur.avoidOK[strings.TrimSpace(t[9:])] = true
 		default:
@@ -202,6 +232,7 @@ func checkGuardsFile(p *Program, r *Report, file string) {
 				r.pass("exit/closed-world", sfn, p.pos(fn.Pos()), fmt.Sprintf("%d accepting exits, all in table", len(sp.exits)))
 			}
 		}
+		checkEffects(p, r, f, sp, sfn, cur)
 		if !sp.open {
 			var extra []string
 			for k, got := range have {
@@ -273,4 +304,120 @@ func editDistance(a, b string) int {
 		prev = cur
 	}
 	return prev[len(rb)]
+}
+
+func effectKey(f *FuncFacts, e *Event) string {
+	return e.Full() + " when " + strings.Join(f.eventContext(e), " && ")
+}
+
+func checkEffects(p *Program, r *Report, f *FuncFacts, sp *guardSpec, sfn string, cur []string) {
+	fpos := p.pos(f.fn.Pos())
+	if len(sp.effects) > 0 {
+		heads := map[string]bool{}
+		want := map[string]int{}
+		for _, e := range sp.effects {
+			want[e]++
+			h := e
+			if i := strings.Index(h, " when "); i >= 0 {
+				h = h[:i]
+			}
+			if i := strings.IndexAny(h, "(="); i >= 0 {
+				h = strings.TrimSpace(h[:i])
+			}
+			heads[h] = true
+		}
+		have := map[string]int{}
+		pos := map[string]string{}
+		for _, e := range f.Events() {
+			if !heads[e.Head()] {
+				continue
+			}
+			k := renameParams(effectKey(f, e), cur, sp.params)
+			have[k]++
+			pos[k] = p.pos(e.Pos)
+		}
+		var ks []string
+		for k := range want {
+			ks = append(ks, k)
+		}
+		sort.Strings(ks)
+		for _, k := range ks {
+			if have[k] < want[k] {
+				near := "(none)"
+				bd := 1 << 30
+				for h := range have {
+					if have[h] > want[h] {
+						if d := editDistance(k, h); d < bd {
+							bd, near = d, h
+						}
+					}
+				}
+				r.fail("effect/present", sfn+" :: "+k, fpos, "expected effect (call/store with these operands under these conditions) not found; nearest unmatched: "+near)
+			} else {
+				r.pass("effect/present", sfn+" :: "+k, pos[k], "")
+			}
+		}
+		ks = ks[:0]
+		for k := range have {
+			if have[k] > want[k] {
+				ks = append(ks, k)
+			}
+		}
+		sort.Strings(ks)
+		for _, k := range ks {
+			r.fail("effect/closed-world", sfn+" :: "+k, pos[k], "tracked effect occurs with operands/conditions that are not in the reviewed table")
+		}
+	}
+	for _, o := range sp.orders {
+		as, bs := f.matchEvents(renameParams(o[0], sp.params, cur)), f.matchEvents(renameParams(o[1], sp.params, cur))
+		cons := sfn + " :: " + o[0] + " < " + o[1]
+		if len(as) == 0 || len(bs) == 0 {
+			r.fail("order", cons, fpos, fmt.Sprintf("anchor event missing in function (%d sites of A, %d sites of B)", len(as), len(bs)))
+			continue
+		}
+		ok := true
+		for _, b := range bs {
+			dom := false
+			for _, a := range as {
+				if evDominates(a, b) {
+					dom = true
+				}
+			}
+			if !dom {
+				ok = false
+				r.fail("order", cons, p.pos(b.Pos), "this site of B can be reached without first executing A")
+			}
+		}
+		if ok {
+			r.pass("order", cons, p.pos(bs[0].Pos), fmt.Sprintf("%d site(s) of B all dominated by a site of A", len(bs)))
+		}
+	}
+	for _, m := range sp.musts {
+		sel := renameParams(m.sel, sp.params, cur)
+		evs := f.matchEvents(sel)
+		cons := sfn + " :: mustpass " + m.sel
+		if len(evs) == 0 {
+			r.fail("mustpass", cons, fpos, "anchor event missing in function")
+			continue
+		}
+		var unless []string
+		for _, u := range m.unless {
+			unless = append(unless, renameParams(u, sp.params, cur))
+		}
+		if why := f.mustPass(evs, unless); why != "" {
+			r.fail("mustpass", cons, p.pos(evs[0].Pos), why)
+		} else {
+			r.pass("mustpass", cons, p.pos(evs[0].Pos), fmt.Sprintf("%d site(s); every non-failing return passes one", len(evs)))
+		}
+	}
+	for _, n := range sp.noev {
+		evs := f.matchEvents(renameParams(n, sp.params, cur))
+		cons := sfn + " :: noevent " + n
+		if len(evs) > 0 {
+			r.fail("noevent", cons, p.pos(evs[0].Pos), "event must not occur in this function")
+		} else {
+			o := r.add("noevent", cons, fpos, true, "")
+			_ = o
+		}
+	}
 }
